@@ -172,7 +172,8 @@ def roundtrip_path(cid, table):
     """Through files: the writer and the reader open the path themselves (encoding and newline handling are theirs)."""
     folder = reused_dir("c12")
     try:
-        path = os.path.join(folder, "table.csv")
+        # what the file is called says nothing about what is in it (names of compressed files and archives included)
+        path = os.path.join(folder, PATH_NAMES[(len(table) + sum(len(row) for row in table[:1])) % len(PATH_NAMES)])
         writer = rowio.DelimitedRowWriter(path, cid.data_format)
         try:
             writer.write_rows(row for row in table)  # rows may come from any iterable, here one without a length
@@ -185,6 +186,8 @@ def roundtrip_path(cid, table):
         shutil.rmtree(folder, ignore_errors=True)
 
 
+PATH_NAMES = ("table.csv", "table.csv", "table.csv.gz", "table.GZ", "table.bz2", "table.zip", "table.xz", "table.txt",
+              "table", "table.xlsx", "table.ods")
 ROUNDTRIPS = (("rowio", roundtrip_rowio), ("validio", roundtrip_validio))
 
 
@@ -509,6 +512,31 @@ def _overlap_task(args):
     return sub
 
 
+def _wide_row_task(width):
+    """One row of very many cells (more than a spreadsheet has columns) through the plain writer and reader."""
+    from vlib.runner import Sub
+
+    sub = Sub("wide-row")
+    config = next(c for c in all_configs())
+    cid = load(config, 1)
+    table = [["c%d" % index for index in range(width)], ["x"] * width]
+    sub.evaluations += 1
+    sub.case(("wide-row", width), True, ["wide-row:%d" % width])
+    try:
+        target = io.StringIO(newline="")
+        writer = rowio.DelimitedRowWriter(target, cid.data_format)
+        writer.write_rows(table)
+        back = list(rowio.delimited_rows(io.StringIO(target.getvalue(), newline=""), cid.data_format))
+    except Exception as error:
+        sub.fail("C12|wide-row|%s" % type(error).__name__, {"config": config, "table": [["wide row of %d cells" % width]]},
+                 "a table of 2 rows x %d cells raised %s: %s" % (width, type(error).__name__, str(error)[:200]))
+        return sub
+    if back != table:
+        sub.fail("C12|wide-row|differs", {"config": config, "table": [["wide row of %d cells" % width]]},
+                 "a table of 2 rows x %d cells came back with rows of %r cells" % (width, [len(row) for row in back]))
+    return sub
+
+
 def check_overlap(sub, case):
     config, long_table, order = case["config"], case["table"], case["overlap"]
     size = max(len(cell) for row in long_table for cell in row)
@@ -597,6 +625,7 @@ def table_cases(draw):
 def run(ctx):
     ctx.par(_overlap_task, [(number, size, order) for number in ((0, 960) if ctx.quick else (0, 320, 960, 2240, 4480))
                             for size in (131072, 262143) for order in ("short-first", "long-first", "short-abandoned")])
+    ctx.par(_wide_row_task, [255, 256, 257, 1024, 1025, 16384, 16385, 65536, 100000])
     shards = ctx.workers * 2
     derived = ctx.n(3, 100)
     ctx.par(_enumeration_shard, [(i, shards, ctx.seed, derived) for i in range(shards)])
